@@ -659,6 +659,51 @@ def r11_reservations_do_not_nest(run, F):
     run.ob("R11-RESERVATIONS-DO-NOT-NEST", "scan", n >= 2, "src/delta/parser.rs / src/alpha/parser.rs", "%d reservation sites examined" % n)
 
 
+def r12_chain_continues(run, F):
+    """`a ^ b ^ c` is one chain of one operator.  In the second-generation parse_rest_of_bitwise_expression the operators that may
+    *start* a chain (the arms of the match on the taken token) are the operators that may *continue* it: the loop continues on
+    `consume_optional(<the taken token>)`, or on a table of (operator, token) pairs that has a row for every starting operator.  A
+    table without the `^` row stops after `a ^ b`, and the statement parser rejects the valid module (E300)."""
+    b = F.body("delta::parser::parse_rest_of_bitwise_expression")
+    starts = {}
+    tok_lid = None
+    for m in hirq.matches(b["hir"]):
+        sc = hirq.unwrap_trivial(m["scrut"])
+        rows = {}
+        for a in m["arms"]:
+            for alt in hirq.pat_alts(a["pat"]):
+                k = hirq.pat_key(alt)
+                ops = [hirq.short(p_) for p_, _ in hirq.constructs(a["body"]) if hirq.short(p_).startswith("BinaryOp::")]
+                if k.startswith("BaseToken::") and len(ops) == 1:
+                    rows[k.split("::")[-1]] = ops[0].split("::")[-1]
+        if len(rows) >= 2 and sc.get("k") == "Path" and sc.get("rk") == "Local":
+            starts = rows
+            tok_lid = sc.get("lid")
+    run.require(len(starts) >= 2 and tok_lid is not None, "parse_rest_of_bitwise_expression: the table of starting operators was not found")
+    generic = [c for c in hirq.calls(b["hir"]) if (hirq.callee(c) or "").endswith("Tokens::consume_optional") and c.get("a")
+               and hirq.unwrap_trivial(c["a"][0]).get("lid") == tok_lid]
+    if generic:
+        run.ob("R12-CHAIN-CONTINUES", "delta bitwise chain", True, F.where(b, generic[0]), "the chain continues on consume_optional(<the token that started it>): every starting operator (%s) continues" % sorted(starts))
+        return
+    cont = set()
+    for m in hirq.matches(b["hir"]):
+        for a in m["arms"]:
+            for alt in hirq.pat_alts(a["pat"]):
+                q = hirq.strip_ref(alt)
+                if q.get("k") == "Tuple" and len(q.get("pats", [])) == 2:
+                    ks = [hirq.pat_key(x) for x in q["pats"]]
+                    op = [k.split("::")[-1] for k in ks if k.startswith("BinaryOp::")]
+                    tk = [k.split("::")[-1] for k in ks if k.startswith("BaseToken::")]
+                    if op and tk:
+                        cont.add((tk[0], op[0]))
+    if not cont:
+        from rules.core import CannotAnalyse
+        raise CannotAnalyse("R12-CHAIN-CONTINUES: the continuation test of parse_rest_of_bitwise_expression is in a form the rule does not read")
+    missing = sorted(set(starts.items()) - cont)
+    run.ob("R12-CHAIN-CONTINUES", "delta bitwise chain", not missing, F.where(b),
+           "operators that start a bitwise chain but do not continue one: %s (a chain of three operands stops after the second and the rest is a syntax error)" % missing)
+
+
 def check(run):
     F = run.facts("A")
     r9_flags_flow(run, F)
@@ -671,3 +716,4 @@ def check(run):
     r7_list_shapes(run, F)
     r8_literal_delimiters(run, F)
     r11_reservations_do_not_nest(run, F)
+    r12_chain_continues(run, F)
